@@ -43,7 +43,11 @@ RULE = ("L1 (differential CLI runs): regenerable scenarios (kind, seed) -> input
         "'shared-barcode' (two samples sharing a BX barcode), 'linked-stress' (read clouds whose phase set is a tie), "
         "'undeclared-info' (INFO keys missing from the VCF header), 'ped-coverage' (trio and quartet with ~110 noisy reads per "
         "sample with mixed base qualities; genotype --ped --max-coverage and phase --ped --internal-downsampling swept over "
-        "budgets that are and are not divisible by the family size: 4,5,7,8,16,17 / 5,7,9), 'ped-changes' (trio with wrong genotypes in all members, "
+        "budgets that are and are not divisible by the family size: 4,5,7,8,16,17 / 5,7,9), 'split-ties' (4-column haplotag lists over 2-4 chromosomes, each with 2-3 phase sets tied for the largest "
+        "number of reads plus smaller ones, untagged and unlisted reads; split --only-largest-block alone / with "
+        "--discard-unknown-reads / --add-untagged / on FASTQ), 'block-ties' (several equally large phase sets per "
+        "chromosome for stats and compare --longest-block-tsv; reads spanning a phase-set boundary with equal scores on "
+        "both sides, alone and in BX clouds, for haplotag), 'ped-changes' (trio with wrong genotypes in all members, "
         "--distrust-genotypes with and without --use-ped-samples). Each job runs under >= 5 configurations "
         "(hash seeds 0,1,2,3,random; thread counts 1..4; one exact repetition of the baseline); every output file is "
         "canonicalised (command-line header removed) and all runs must give the same record list. One case = one "
@@ -178,6 +182,8 @@ def signature(job, label, kind, diff, dim, a, b):
     if job.sub == "phase" and label == "changed-genotype-list" and diff == "record-order" and dim == "hashseed" \
             and f.get("use_ped_samples"):
         return "phase:use-ped-samples-set-order"
+    if job.sub == "split":
+        label = "outputs"       # h1 / h2 / untagged / histogram are facets of one partition of the reads
     return f"{job.sub}:{label}:{diff}:{dim}"
 
 
@@ -206,6 +212,12 @@ def scenario_plan(ctx, rng):
                      {"children": ch, "reads": rng.choice([60, 110, 160]), "error_rate": rng.choice([0.01, 0.03, 0.06]),
                       "coverages": [4, 5, 7, 8, 16, 17] if ch == 1 else [5, 6, 7, 9, 10, 11],
                       "phase_coverages": [4, 5, 7, 8] if ch == 1 else [5, 7, 9]}))
+    # tie-rich inputs: a set/dict order could break a tie between equally large phase sets / equally long blocks
+    for k in range(ctx.n(1, 6)):
+        plan.append(("split-ties", rng.randrange(10 ** 9), {"nchrom": 3 if k == 0 else rng.choice([2, 3, 4])}))
+    for k in range(ctx.n(1, 4)):
+        plan.append(("block-ties", rng.randrange(10 ** 9), {"nsamples": 2, "nchrom": 2, "block": 4 if k == 0 else rng.choice([3, 4, 5]),
+                                                            "nblocks": 3 if k == 0 else rng.choice([2, 3, 4])}))
     for k in range(ctx.n(1, 3)):
         plan.append(("ped-changes", rng.randrange(10 ** 9), {}))
     for k in range(ctx.n(1, 3)):
